@@ -1,7 +1,7 @@
 /-
   Fbr.PtSealShow — parsing of `ptseal` case lines and canonical printing (driver side only).
 
-  case line:  seal=0|1 no=0|1 dio=<align> files=<size,...> fal=<mode:errnoW:errnoR,...> ops=<op;...>
+  case line:  seal=0|1 no=0|1 [wb=0|1] dio=<align> files=<size,...> fal=<mode:errnoW:errnoR,...> ops=<op;...>
      ops:  op:<f>:<flags>                    OPEN
            cr:<f>:<flags>                    CREATE (f ≥ number of files: a new name)
            wr:<f>:<k>:<flags>:<len>:<off>    WRITE on the k-th handle (0 = handle value 0)
@@ -70,7 +70,9 @@ def runLine (line : String) : String :=
       falErr := fun m w => match fal.find? (·.1 == m) with
         | some (_, ew, er) => let e := if w then ew else er; if e == 0 then none else some e
         | none => some EOPNOTSUPP }
-  let cfg : Cfg := { sealed := getNatD kv "seal" 1 == 1, noOpen := getNatD kv "no" == 1, allowDirectIo := getNatD kv "adio" 1 == 1 }
+  let cfg : Cfg :=
+    { sealed := getNatD kv "seal" 1 == 1, noOpen := getNatD kv "no" == 1,
+      allowDirectIo := getNatD kv "adio" 1 == 1, writeback := (getNatD kv "wb" == 1) }
   let ops := (getD kv "ops").splitOn ";" |>.filter (!·.isEmpty)
   let r := ops.foldl (stepOp cfg sizes.length) ({ st := { host := host } } : Run)
   ";".intercalate r.outs.toList
